@@ -9,6 +9,7 @@ from unified_planning.environment import Environment
 from unified_planning.engines.factory import Factory, DEFAULT_ENGINES
 from unified_planning.engines.engine import Engine, OperationMode
 from unified_planning.engines import mixins
+from unified_planning.engines.mixins.action_selector import ActionSelectorMixin
 from unified_planning.engines.mixins.oneshot_planner import OptimalityGuarantee
 from unified_planning.engines.mixins.anytime_planner import AnytimeGuarantee
 from unified_planning.engines.mixins.compiler import CompilationKind
@@ -62,7 +63,7 @@ MIXIN = {
     "plan_validator": mixins.PlanValidatorMixin, "portfolio_selector": mixins.PortfolioSelectorMixin,
     "compiler": mixins.CompilerMixin, "sequential_simulator": mixins.SequentialSimulatorMixin,
     "replanner": mixins.ReplannerMixin, "plan_repairer": mixins.PlanRepairerMixin,
-    "action_selector": mixins.ActionSelectorMixin,
+    "action_selector": ActionSelectorMixin,
 }
 # which optional requirements each operation mode admits (docstring of get_all_applicable_engines)
 ADMITS = {
